@@ -163,6 +163,24 @@ def run(ctx):
             ctx.ob("C15.pv-snapshot", m.short(), f"{tg[0].name}@{_ord(P, m, c)}", len(direct) < 2,
                    f"{tg[0].name} built from {len(direct)} separate reads of a shared position vector ({direct}); "
                    "fields must come from one snapshot (a local bound once)", f"{m.module.rel}:{c.lineno}")
+    # any composite value (dict literal / call) built from two or more separate reads of the shared ego position vector can
+    # mix the fields of two different positions (refresh_ego_position_vector re-binds the attribute between the reads)
+    for m in router.methods.values():
+        k_ = 0
+        for n_ in ast.walk(m.node):
+            if not isinstance(n_, (ast.Dict, ast.Call)):
+                continue
+            # values that are EMITTED (records / dict literals handed on), not arguments of a geometric decision function
+            if isinstance(n_, ast.Call) and not any(isinstance(t, ClassInfo) for t in P.call_targets(m, n_, count=False)):
+                continue
+            parts = (n_.values if isinstance(n_, ast.Dict) else list(n_.args) + [kw.value for kw in n_.keywords])
+            reads = [p_ for p_ in parts if p_ is not None and isinstance(p_, ast.Attribute) and dotted(p_.value) == "self.ego_position_vector"]
+            if len(parts) and any(isinstance(p_, ast.Attribute) and dotted(p_.value) == "self.ego_position_vector" for p_ in parts if p_ is not None):
+                k_ += 1
+                ctx.ob("C15.pv-snapshot", m.short(), f"composite#{k_}", len(reads) < 2,
+                       "fields of the ego position taken from one read" if len(reads) < 2 else
+                       f"`{unparse(n_)[:90]}` takes {len(reads)} fields from {len(reads)} separate reads of self.ego_position_vector: a position "
+                       "refresh between the reads yields a (latitude, longitude) pair that never was the ego position", f"{m.module.rel}:{n_.lineno}")
     ctx.floor("C15.pv-snapshot", 12)
     # ---- information: timer/thread targets that can die from I/O faults
     mr = MayRaise(P, wiring)
